@@ -238,6 +238,12 @@ func (c *Ctx) specCall(name string, e *ast.CallExpr) (Value, bool) {
 		arr := c.st.store[key].S
 		k := c.eval(e.Args[0])
 		return Scalar(Select(arr, k.S), boolT), true
+	case "clock":
+		return Scalar(x.ghostInt(c.st, clockKey), types.Typ[types.Int]), true
+	case "deadline", "chanlen", "chanval", "chancap":
+		key := map[string]string{"deadline": deadlineKey, "chanlen": chanLenKey, "chanval": chanValKey, "chancap": chanCapKey}[name]
+		r := c.eval(e.Args[0])
+		return Scalar(Select(x.ghostArr(c.st, key, SInt), r.S), types.Typ[types.Int]), true
 	case "first":
 		v := c.eval(e.Args[0])
 		if v.Kind != KTuple {
